@@ -1,4 +1,5 @@
 import BppProofs.Lemmas.DiscretizeCompound
+import BppProofs.Lemmas.DiscretizeTermination
 /-!
 # C09 — compound distributions obey the same normalisation
 (ConstantDistribution, SimpleDiscreteDistribution, InvariantMixedDiscreteDistribution,
@@ -50,6 +51,22 @@ constraint `PROP_CONSTRAINT_IN` enforces on every accepted update. -/
 theorem compound_normalised_simple (s s' : SimpleSt ℝ) (hlen : s.thetas.length + 1 = s.vs.length)
     (hth : ∀ t ∈ s.thetas, 0 ≤ t ∧ t ≤ 1) (h : s.rebuild = .ok s') : Normalised s'.dd.dist :=
   simple_rebuild_normalised s s' hlen hth h
+
+/-- **simple_rebuild_terminates**: `fireParameterChanged` of a user-specified distribution returns
+for every precision `≥ 0` (0 included: exact comparison), every domain and all parameter values —
+the repaired loop that separates equal values uses a positive step that is at least the precision,
+and ignores the domain once it has no room on either side (same pigeonhole as for `insertClass_`) -/
+theorem simple_rebuild_terminates (s : SimpleSt ℝ) (hp : 0 ≤ s.dd.prec) : ∃ s', s.rebuild = .ok s' := by
+  unfold SimpleSt.rebuild
+  obtain ⟨m, hm⟩ := simple_go_some s hp (s.vs.zip (probsOfThetas s.thetas Scalar.one)) []
+  simp only [hm]
+  exact ⟨_, rfl⟩
+
+/-- as found the loop stepped by `j · precision` inside the domain only: with precision 0 a value
+equal to a key was looked for again and again — for every fuel
+(`SimpleDiscreteDistribution d({1,2},{.5,.5}, 0.); d.setParameterValue("V1", 2)` never returned) -/
+theorem simple_legacy_loops (lo hi v : ℝ) (m : TMap ℝ) (h : (TMap.find? 0 v m).isSome = true) (fuel : Nat) (j : Int) :
+    SimpleSt.Legacy.findFree 0 lo hi v m fuel j = none := simple_legacy_findFree_loops lo hi v m h fuel j
 
 /-- an accepted update of a `theta` parameter keeps all thetas in `[0,1]` -/
 theorem simple_theta_accepted (s : SimpleSt ℝ) (i : Nat) (v : ℝ) (hi : i < s.thetas.length)
